@@ -33,6 +33,11 @@ def gen(r):
          'zlo': r.choice([-1., 0., -2.], nz).tolist(), 'zw': r.choice([0., 1., 2.], nz).tolist(),      # width 0 = fixed component
          'norm': {'k': float(r.choice([1., 2., 0.5, 4.])), 'p': str(r.choice(['inf', '1', '2'])), 'r': float(r.choice([1., 2., 3.]))},
          'zset': str(r.choice(['box', 'box', 'infnorm', 'norm1']))}
+    # a vector-valued robust constraint (2-3 rows, bi-affine): written as one array constraint or row by row
+    rows = int(r.integers(2, 4))
+    d['R2'] = r.choice([-1., 0., 1., 2.], (rows, nz, n)).tolist(); d['r2'] = r.choice([-1., 0., 1.], (rows, nz)).tolist()
+    d['rb2'] = r.choice([3., 4., 6.], rows).tolist()
+    d['own'] = bool(d['zset'] == 'box' and r.random() < 0.6)       # the vector constraint gets its own (smaller) box through forall()
     return d
 
 
@@ -91,6 +96,22 @@ def build(d, rw, front='ro'):
         cons.append(d['rb'] >= rob)
     else:
         cons.append(rob <= d['rb'])
+    if 'R2' in d:
+        R2 = np.array(d['R2']); r2 = np.array(d['r2']); rb2 = np.array(d['rb2'])
+        if 'elementwise' in rw:
+            for i in range(R2.shape[0]):
+                cons.append((R2[i] @ x + r2[i]) @ z <= rb2[i])
+        else:
+            Mx = r2
+            for j in range(n):
+                Mx = x[j] * R2[:, :, j] + Mx
+            cons.append((Mx @ z <= rb2) if 'flip-sides' not in rw else (rb2 >= Mx @ z))
+        if d.get('own'):
+            zw_ = np.array(d['zw']); lo2 = zlo + 0.25 * zw_; hi2 = zhi - 0.25 * zw_
+            own = [np.eye(nz) @ z >= lo2, np.eye(nz) @ z <= hi2] if 'bounds-as-rows' in rw else [z >= lo2, z <= hi2]
+            k0 = len(cons) - (R2.shape[0] if 'elementwise' in rw else 1)
+            several = 'set-list-vs-args' in rw and 'ro-vs-dro1' not in rw        # (dro's forall() takes one set object or one list)
+            cons[k0:] = [(cc.forall(*own) if several else cc.forall(own)) for cc in cons[k0:]]
     B = d['box']
     if 'bounds-as-rows' in rw:
         cons += [np.eye(n) @ x <= B, -np.eye(n) @ x <= B]
